@@ -1019,7 +1019,95 @@ func ruleR52(c *Ctx) {
 			return true
 		})
 	}
-	c.r.note("R52: %d comparisons of two text lengths", n)
+	// second clause: a rune count (or a count whose unit depends on the instantiation) is not the
+	// size of a byte buffer nor a position in a byte string
+	lensIn := func(e ast.Expr) []ast.Expr {
+		var out []ast.Expr
+		var walk func(e ast.Expr)
+		walk = func(e ast.Expr) {
+			e = ast.Unparen(e)
+			switch x := e.(type) {
+			case *ast.BinaryExpr:
+				switch x.Op {
+				case token.ADD, token.SUB:
+					walk(x.X)
+					walk(x.Y)
+				}
+			case *ast.CallExpr:
+				if a := lenArg(x); a != nil {
+					out = append(out, a)
+					return
+				}
+				if isConversion(info, x) && len(x.Args) == 1 {
+					walk(x.Args[0])
+					return
+				}
+				if isBuiltinCall(info, x, "min") || isBuiltinCall(info, x, "max") {
+					for _, a := range x.Args {
+						walk(a)
+					}
+				}
+			}
+		}
+		walk(e)
+		return out
+	}
+	nUse := 0
+	for _, u := range c.sortedUnits() {
+		if u.Body == nil {
+			continue
+		}
+		check := func(container types.Type, what string, pos token.Pos, sizes ...ast.Expr) {
+			if container == nil || unitOf(container) != "bytes" {
+				return
+			}
+			for _, sz := range sizes {
+				if sz == nil {
+					continue
+				}
+				for _, la := range lensIn(u2local(m, u, sz)) {
+					lu := unitOf(info.TypeOf(la))
+					if lu == "" {
+						continue
+					}
+					nUse++
+					key := fmt.Sprintf("%s uses len(%s) as %s in its own unit", u.Name, types.ExprString(la), what)
+					if lu == "bytes" {
+						c.r.ok("R52", key, m.pos(pos), "both count bytes", props...)
+						continue
+					}
+					c.r.bad("R52", key, m.pos(pos), fmt.Sprintf("len(%s) counts %s, and it is used as %s: for a []rune key with a multi-byte character the UTF-8 form is longer than the rune count, and the bytes beyond it are cut off (or never copied)", types.ExprString(la), map[string]string{"mixed": "runes or bytes depending on the key type", "runes": "runes"}[lu], what), props...)
+				}
+			}
+		}
+		ast.Inspect(u.Body, func(x ast.Node) bool {
+			if lit, ok := x.(*ast.FuncLit); ok && ast.Node(lit) != ast.Node(u.Lit) {
+				return false
+			}
+			switch e := x.(type) {
+			case *ast.CallExpr:
+				if isBuiltinCall(info, e, "make") && len(e.Args) >= 2 {
+					check(info.TypeOf(e.Args[0]), "the size of a byte buffer", e.Pos(), e.Args[1]) // the capacity is only a hint
+				}
+			case *ast.SliceExpr:
+				check(info.TypeOf(e.X), "a position in a byte string", e.Pos(), e.Low, e.High, e.Max)
+			case *ast.IndexExpr:
+				if tv, ok := info.Types[e.X]; ok && !tv.IsType() {
+					if _, isSig := info.TypeOf(e.X).Underlying().(*types.Signature); !isSig {
+						check(info.TypeOf(e.X), "a position in a byte string", e.Pos(), e.Index)
+					}
+				}
+			}
+			return true
+		})
+	}
+	c.r.note("R52: %d comparisons of two text lengths, %d lengths used as a byte size or position", n, nUse)
+}
+
+// u2local: a size given through a local defined once (n := len(k); make([]byte, n)) is read as its
+// definition.
+func u2local(m *Model, u *FuncUnit, e ast.Expr) ast.Expr {
+	return m.throughLocals(u, ast.Unparen(e))
 }
 
 // R54 PRUNEWINDOW (C03, C09) – a range scan that skips a subtree because the node's compressed path
@@ -1138,6 +1226,12 @@ func ruleR54(c *Ctx) {
 					}
 					return []ast.Expr{x}
 				}
+				// node.inlinePrefix(): a helper whose body is one return stands for what it returns
+				if ce, ok := e.(*ast.CallExpr); ok && depth < 3 && !isConversion(info, ce) {
+					if ex := c.expandSimpleCall(ce); ex != ast.Expr(ce) {
+						return lenGeOne(ex, depth+1)
+					}
+				}
 				switch x := e.(type) {
 				case *ast.CallExpr:
 					if m.calleeName(x) == "unsafe.Slice" && len(x.Args) == 2 {
@@ -1149,6 +1243,29 @@ func ruleR54(c *Ctx) {
 						return true, ""
 					}
 				case *ast.SliceExpr:
+					// a[:E] of an array or slice
+					if x.Low == nil && x.High != nil && x.Max == nil {
+						hi := ast.Unparen(x.High)
+						for d := 0; d < 3; d++ {
+							if hc, ok := hi.(*ast.CallExpr); ok && isConversion(info, hc) && len(hc.Args) == 1 {
+								hi = ast.Unparen(hc.Args[0])
+								continue
+							}
+							if hc, ok := hi.(*ast.CallExpr); ok {
+								if ex := c.expandSimpleCall(hc); ex != ast.Expr(hc) {
+									hi = ast.Unparen(ex)
+									continue
+								}
+							}
+							break
+						}
+						for _, a := range minArgs(hi) {
+							if !geOne(a) {
+								return false, "the length " + types.ExprString(a) + " of " + types.ExprString(e) + " is not known to be at least 1"
+							}
+						}
+						return true, ""
+					}
 					if x.Low != nil && x.High != nil {
 						// s[lo : lo + E]
 						if hb, ok := ast.Unparen(x.High).(*ast.BinaryExpr); ok && hb.Op == token.ADD && exprText(hb.X) == exprText(x.Low) {
@@ -1177,6 +1294,7 @@ func ruleR54(c *Ctx) {
 		})
 	}
 	c.r.note("R54: %d pruning comparisons examined", n)
+	c.r54Skips()
 }
 
 // R55 SLOTARG (C16, C12, C11, C01) – a function that may relink the slot it is given (a method with
